@@ -9,15 +9,15 @@ LEVEL={
  "C01":("bounded symbolic execution of the real transform.Read/RawRecord from an arbitrary pre-state satisfying the latch invariant (one inductive step covers call histories of any length); per-format error classification is decided in the C16/C07 reader harnesses",
         "ingester is a symbolic mock returning any of five result classes (handler contract err==nil ⇒ non-nil bytes assumed); json.Marshal's output validity trusted"),
  "C03":("panic-freedom and termination as explicit obligations: the old csv reader over every admitted delimiter/row-index configuration with every loop bounded (a loop over its bound is a violation, replayed natively under a watchdog); in addition every harness of every other property carries implicit nil/bounds/division/explicit-panic checks and unwinding assertions on all paths",
-        "NewSchema on arbitrary bytes (gojsonschema, encoding/json, regexp/xpath compilation), goja and custom function bodies are outside"),
+        "own harnesses added since: arbitrary bytes through the XML and csv2 readers, fixedlength2 column slicing on invalid UTF-8, every cast and absent value on five custom-function signatures (incl. fixed+variadic), template reference cycles through every reference kind (unbounded recursion = violation). NewSchema on arbitrary bytes (gojsonschema, encoding/json.Unmarshal, regexp/xpath compilation of arbitrary text), goja and custom function bodies are outside"),
  "C05":("the real HierarchyReader and the real EDI reader (bufio.Scanner, go-corelib split function, tokenizer, matcher) and the real csv2 reader are executed symbolically over every bounded hierarchy shape / min-max / unit sequence and compared with an independent recursive greedy matcher",
         "RecReader mock honours its documented contract in C05Hier; bounds as listed in evidence; min<=max as validation enforces; max=0 excluded"),
  "C06":("real fixed-length / csv2 / old csv / old fixed-length readers incl. real bufio and encoding/csv executed symbolically over symbolic field and line content with forked structure and source cut points; column values compared with ghost copies",
-        "structure (row/field counts, EOL kinds, cut positions) is forked concretely, content is symbolic; RFC-4180 quoting itself is not specified independently; regexp executed as real code on concrete patterns"),
+        "structure (row/field counts, EOL kinds, cut positions) is forked concretely, content is symbolic; quoted fields with embedded delimiters/quotes/line breaks and rows spanning two physical lines are included; RFC-4180 quoting itself is encoding/csv's; regexp executed as real code on concrete patterns"),
  "C07":("NonValidatingReader + ediReader executed on every input up to the byte bound and compared with an independent one-pass tokenizer with an escape flag; encode→tokenize→unescape round trip over symbolic values",
-        "single-byte delimiters; valid UTF-8; bounds in evidence"),
- "C09":("two-run non-interference: the same symbolic bytes delivered one-shot and under every chunk schedule in the bound give the same results (EDI scanner with a 2-byte buffer and CR/LF stripping readers; fixedlength2 reader with a 16-byte bufio buffer and cut sources)",
-        "stdlib decoders (encoding/csv,json,xml, x/text) are only covered where harnesses execute them as real code; BOM/encoding layer not covered here"),
+        "single-byte delimiters; valid UTF-8; inputs ≤ 4..6 bytes plus one wide configuration (a 40/100-element segment); bounds in evidence"),
+ "C09":("two-run non-interference: the same symbolic bytes delivered one-shot and under every chunk schedule in the bound give the same results (EDI scanner with a 2-byte buffer and CR/LF stripping readers, also across >100-byte CR/LF runs byte by byte; fixedlength2 and old fixed-length readers over a 16-byte bufio buffer with cut sources; XML stream reader with the real decoder on documents and arbitrary bytes; BOM/charset stack under cuts and across its 4096-byte buffers)",
+        "encoding/json tokenisation is modelled (no chunking claim for JSON); csv readers' chunking is encoding/csv over bufio and not separately compared"),
  "C12":("inductive steps over a symbolic heap: all five links of N nodes are solver-chosen, constrained only by the wfForest invariant; one AddChild / RemoveAndReleaseTree / CreateNode with symbolic arguments must re-establish the invariant, keep child order, blank and pool exactly the removed subtree and issue fresh IDs; reader Release/Read protocols are monitored for double release and use-after-release; acquisitions racing on goroutines: bounded thread model (every interleaving of pool and atomic operations of 2 threads within a preemption bound, happens-before race monitor) with IDs, ownership and blankness asserted after the join",
         "sync.Pool modelled as a bag (LIFO, or any element in mode 2); threads: 2, preemptions ≤ 2 (quick) / 3 (thorough), sequential consistency; more threads or preemptions are outside"),
  "C16":("every built-in reader claimed is run over symbolic inputs with the source failing persistently at every byte position and compared with its fault-free twin: prefix of results equal (last exempt), then a non-continuable non-EOF error within the read bound",
@@ -27,25 +27,25 @@ LEVEL.update({
  "C04":("the real XML stream reader (real encoding/xml) and the JSON stream reader (token model) with the real antchfx/xpath engine are executed symbolically over forked document shapes with symbolic values and compared, per target xpath, with whole-document selection on an independently built tree (outermost candidates, own predicate, document order, complete subtrees); the path/filter splitter is checked against a forward scanner on all well-formed strings",
         "JSON tokenisation replaced by a grammar-valid token model (natively the real decoder runs on the rendered text); xpath class = the listed expressions"),
  "C08":("JSON: tree built by the stream reader converted back with J2NodeToInterface and deep-compared with the abstract value for all values in the bound; XML: delivered tree compared node by node (type, prefix, URI, name, order, attributes first, text) with an independently built tree for namespace/attribute/mixed-content shapes",
-        "small integer numbers only (float formatting trusted); XML entities/CDATA/PIs are the tokeniser's"),
- "C17":("periodic inputs: the size of the tree reachable from the reader's root after each delivered-and-released record must not exceed the size after the first; XML with the real decoder, passing and filtered-out records, with and without separators; the growth with character data between records is the recorded finding F6",
+        "numbers: ten concrete literals incl. 2^53+1, 2^63, 1e25, 1.5e300, fractions (floating point is concrete in the engine; strconv trusted); XML entities/CDATA/PIs are the tokeniser's"),
+ "C17":("periodic inputs: the size of the tree reachable from the reader's root after each delivered-and-released record must not exceed the size after the first; XML with the real decoder, passing and filtered-out records (child-value, attribute and multi-filter targets), with and without separators; the shared flat-file HierarchyReader with leaf/parent/group targets and filters; EDI; the growth with character data between XML records is the recorded finding F6",
         "retention measured on the node tree only"),
 })
 LEVEL.update({
  "C02":("the real schema validation (validateDecl: kinds, templates, children, parents) and ParseNode with the real xpath engine are executed symbolically over a schema family with symbolic flags and records with symbolic texts, and compared with an independent reference evaluator written from the documents (arrays in declaration order, template inlining, anchoring rules, trim/cast/omit)",
-        "computeDeclHash replaced by a canonical rendering (equal content ⇔ equal hash); kept empty values: null ≡ empty container; undocumented combinations excluded (listed in evidence)"),
+        "17-schema family (templates, ignore_error inline/through templates/next to a strict twin, field names with '.' and '%', empty containers, 12-element arrays); real computeDeclHash; kept empty values: null ≡ empty container; undocumented combinations excluded (listed in evidence)"),
  "C11":("differential: the same real xpath engine over idr's navigator and over the reference DOM binding (xmlquery), both executed symbolically on the same bytes, 30 expressions over all axes / positional predicates / functions; results compared by position, name, kind and string value",
         "text()/node() tests on character data excluded (reference v1.3.1 deviates itself); expressions limited to the listed ones"),
- "C13":("two-run non-interference: ParseNode with the per-record result cache on vs. off on the same symbolic record, over a schema family built to share declaration text across positions; node pool on/off equivalence is part of the C12 create step; xpath-expression cache: real LRU code executed as part of every harness",
-        "declaration hash replaced by its contract; goja caches are C20's"),
+ "C13":("two-run non-interference: ParseNode with the per-record result cache on vs. off on the same symbolic record, over a 17-schema family built to share declaration text across positions, with the REAL computeDeclHash (json.Marshal with struct tags/MarshalJSON executed through the engine's model, uuid as a per-path counter); the ingester's per-record context is covered by an ancestor-anchored declaration in C10IngesterStep; node pool on/off equivalence is part of the C12 create step; xpath-expression cache: real LRU code executed as part of every harness",
+        "goja caches are C20's; the LRU's eviction is not reached (capacity 65536)"),
 })
 LEVEL.update({
  "C10":("the real ingester is executed over K symbolic records; each result is compared with an independent evaluation of a copy of that record alone with a fresh context (so no result depends on another record), a failing record is exactly one continuable ErrTransformFailed, every record node is released exactly once before the next read, and the tree under the reader's root does not grow",
         "FormatReader mock; reader-side cross-record state is covered where it lives (C06 line/record buffers, C12 pool, C13 caches)"),
 })
 LEVEL.update({
- "C19":("epoch arithmetic: DateTimeToEpoch (both units) and EpochToDateTimeRFC3339 (SECOND) on the real code and the real time package's integer code for every instant of years 1..9999 under 64-bit wrap-around semantics; zone logic: the real parseDateTime, go-corelib OverwriteTZ/ConvertTZ and the real time package (time.Date, absDate, Time.In, Location.lookup) over the real IANA transition tables of four zones, every from/to combination, every second within ±25 h of every transition in a window of years, against a seconds-level statement of instant and wall-clock preservation (DST gaps per time.Date's contract); empty-input and parse-error rules of the four exported functions; counterexamples are replayed natively through the real parser and formatter",
-        "text parsing and layouts (times.SmartParse, time.Parse/Format) are cut away in the engine (natively they run); zones: 4, years: 2021 (quick) / 2018-2023 (thorough); the MILLISECOND inverse direction is not registered because the solver does not finish its unsat direction"),
+ "C19":("epoch arithmetic: DateTimeToEpoch and EpochToDateTimeRFC3339, both units, both signs, on the real code and the real time package's integer code for every instant of years 1..9999 under 64-bit wrap-around semantics; zone logic: the real parseDateTime, go-corelib OverwriteTZ/ConvertTZ and the real time package (time.Date, absDate, Time.In, Location.lookup) over the real IANA transition tables of four zones, every from/to combination, every second within ±25 h of every transition in a window of years, against a seconds-level statement of instant and wall-clock preservation (DST gaps per time.Date's contract); empty-input and parse-error rules of the four exported functions; counterexamples are replayed natively through the real parser and formatter",
+        "text parsing and layouts (times.SmartParse, time.Parse/Format) are cut away in the engine (natively they run); zones: 4, years: 2021 (quick) / 2018-2023 (thorough)"),
 })
 LEVEL.update({
  "C20":("pool hygiene and _node freshness on the real javascript.go code: two consecutive calls over every subset of argument names (incl. a built-in's name), first script returning or throwing, the second call getting the pooled VM: the globals visible to the second script are exactly the built-ins plus its own arguments; _node of a node built from recycled memory; the stale _node of a changing ancestor is the recorded finding F5",
@@ -53,14 +53,14 @@ LEVEL.update({
 })
 LEVEL.update({
  "C18":("the real reader stack NewTransform builds (charset decoder selection, x/text charmap decoder and transform.Reader, BOM strip through bufio.ReadRune) executed symbolically on arbitrary bytes: the bytes handed to the format reader equal stripLeadingBOM(decode(input)) for an independent code-page table, for every declared encoding",
-        "inputs ≤ bound bytes; undefined windows-1252 bytes excluded; that equal bytes give equal results downstream is each format reader's determinism (C15)"),
+        "inputs ≤ bound bytes plus inputs placed across the 4096/8192-byte internal buffer boundaries; undefined windows-1252 bytes excluded; that equal bytes give equal results downstream is each format reader's determinism (C15)"),
 })
 LEVEL.update({
  "C14":("bounded thread model on the real code: two goroutines (transform over a shared validated declaration tree with cold xpath cache; javascript custom functions over the shared VM pool and program cache; whole ingester runs over one schema through the shared node pool; racing node acquisitions) under every sequentially consistent interleaving of their synchronisation operations (sync/atomic, Mutex/RWMutex incl. the real golang-lru code, sync.Pool, sync.Once) within a preemption bound, with a vector-clock happens-before race monitor over every load/store/map operation and each thread's results compared with its serial run; plus the freeze condition on five reader/transform harnesses (no store into validated declarations while reading or transforming)",
         "2 threads; preemptions ≤ 1..2 (quick) / 2..4 (thorough); sequential consistency (weak-memory effects are exactly the data races the monitor reports); accesses inside engine-side models of byte/string leaf functions are not monitored; goja internals modelled; GOMAXPROCS and the real scheduler appear only in the native -race replay"),
 })
 LEVEL.update({
- "C15":("two-run non-interference over hidden state decided inside single symbolic paths: the same transform before and after unrelated activity (pool contents, ID counter advance, all map-iteration permutations) yields byte-identical outputs and checksums; checksum injectivity on the record shapes readers produce, with the XML attribute/mixed-content collision recorded as finding F13",
+ "C15":("two-run non-interference over hidden state decided inside single symbolic paths: the same transform before and after unrelated activity (pool contents, ID counter advance, all map-iteration permutations) yields byte-identical outputs and checksums; failure texts identical across independent schema loads under every map order; checksum injectivity on XML record shapes, with the attribute/mixed-content collision (F13) and the list-of-same-named-children collision (F24) recorded as findings",
         "MD5/UUID trusted; separate processes subsumed by arbitrary process state"),
 })
 REASON_NOT_YET="check under construction in this session (see DESIGN.md §6); not claimed yet"
